@@ -33,6 +33,12 @@ MUT = {
  "c20_dlist_not_nested": ("client.py", "            dList = [self.close_dlist]\n", "            dList = []\n"),
  "c20_boot_loop_no_closing_check": ("client.py", "            if self._closing:\n                # close() was called while this operation was in progress\n                raise CancelledError(message=\"{} has been closed\".format(self))\n            ep = ", "            ep = "),
  "c20_bc_close_keeps_requests": ("brokerclient.py", "            if tReq.cancelled is None:\n                tReq.d.errback(reason)\n        return self._dDown", "            pass\n        return self._dDown"),
+ # ---- round 2 (same correlation id issued again; close() from a user callback during the queue flush)
+ "r2_dup_guard_ignores_tombstone": ("brokerclient.py", "        if correlationId in self.requests:\n", "        if correlationId in self.requests and self.requests[correlationId].cancelled is None:\n"),
+ "r2_dup_guard_only_unsent": ("brokerclient.py", "        if correlationId in self.requests:\n", "        if correlationId in self.requests and self.requests[correlationId].sent is None:\n"),
+ "r2_sendqueued_no_recheck": ("brokerclient.py", "            if tReq.sent is None and self.requests.get(tReq.correlationId) is tReq:\n", "            if tReq.sent is None:\n"),
+ "h_dup_guard_get": ("brokerclient.py", "        if correlationId in self.requests:\n", "        if self.requests.get(correlationId) is not None:\n"),
+ "h_sendqueued_continue": ("brokerclient.py", "            if tReq.sent is None and self.requests.get(tReq.correlationId) is tReq:\n                self._sendRequest(tReq)\n", "            if tReq.sent is not None or self.requests.get(tReq.correlationId) is not tReq:\n                continue\n            self._sendRequest(tReq)\n"),
  # ---- harmless rewrites
  "h_disconnect_before_cancel": ("client.py", "            d.cancel()\n\n            if self._disconnect_on_timeout:\n                log.info(\"_mrtb: Disconnecting %s due to timeout of %s\", broker, rr)\n                broker.disconnect()\n", "            if self._disconnect_on_timeout:\n                log.info(\"_mrtb: Disconnecting %s due to timeout of %s\", broker, rr)\n                broker.disconnect()\n            d.cancel()\n"),
  "h_single_timeout_expr": ("client.py", "        if min_timeout is None:\n            timeout = self.timeout\n        else:\n            timeout = max(self.timeout, min_timeout)\n\n        # Make the request", "        timeout = self.timeout if min_timeout is None else max(min_timeout, self.timeout)\n\n        # Make the request"),
